@@ -138,8 +138,8 @@ class Check:
         self.trusted = []
         self._distinct = set()
         os.makedirs(SCRATCH, exist_ok=True)
-        self.findings = [f for f in json.load(open(os.path.join(VERIF, "known_findings.json")))
-                         if f["property"] == pid]
+        allf = json.load(open(os.path.join(VERIF, "known_findings.json")))
+        self.findings = [f for f in allf if f["property"] == pid]
 
     # ----- Coq ---------------------------------------------------------------------------
     def run_translators(self):
@@ -155,14 +155,24 @@ class Check:
                 errs.append((fn, out[-2000:]))
         return errs
 
+    def gen_coqproject(self):
+        """_CoqProject lists every .v under Model/ Proofs/ Props/ Gen/ Extract/ (regenerated when the set changes)."""
+        files = []
+        for d in ("Model", "Gen", "Proofs", "Props", "Extract"):
+            dd = os.path.join(COQ, d)
+            if os.path.isdir(dd):
+                files += sorted(d + "/" + f for f in os.listdir(dd) if f.endswith(".v"))
+        txt = "-Q . Verif\n" + "\n".join(files) + "\n"
+        if write_if_changed(os.path.join(COQ, "_CoqProject"), txt) or not os.path.exists(os.path.join(COQ, "Makefile")):
+            sh("coq_makefile -f _CoqProject -o Makefile", cwd=COQ)
+
     def coq_build(self, targets=None):
         """translators, then make (full .vo build of everything the property needs)."""
         with Lock("build"):
             terrs = self.run_translators()
             for fn, out in terrs:
                 self.proof["errors"].append("translator %s: tie broken: %s" % (fn, out[-600:]))
-            if not os.path.exists(os.path.join(COQ, "Makefile")):
-                sh("coq_makefile -f _CoqProject -o Makefile", cwd=COQ)
+            self.gen_coqproject()
             tg = " ".join(targets) if targets else ""
             rc, out = sh("timeout 2400 make -j%d %s" % (min(16, os.cpu_count() or 4), tg), cwd=COQ,
                          timeout=2500)
@@ -224,7 +234,8 @@ class Check:
     # ----- extracted model -------------------------------------------------------------
     def build_driver(self):
         with Lock("build"):
-            rc, out = sh("timeout 900 make -s driver", cwd=OCAML, timeout=1000)
+            self.gen_coqproject()
+            rc, out = sh("timeout 1500 make -s driver_%s" % self.pid, cwd=OCAML, timeout=1600)
             if rc != 0:
                 self.proof["errors"].append("extraction/driver build failed: " + out[-2000:])
             return rc == 0
@@ -232,7 +243,7 @@ class Check:
     def run_model(self, cmd, lines, timeout=3000):
         """Run the extracted OCaml model on one case per line; returns parsed result lines."""
         inp = "\n".join(lines) + "\n"
-        p = subprocess.run([os.path.join(OCAML, "driver"), cmd], input=inp, text=True,
+        p = subprocess.run([os.path.join(OCAML, "driver_" + self.pid), cmd], input=inp, text=True,
                            stdout=subprocess.PIPE, stderr=subprocess.PIPE, timeout=timeout)
         if p.returncode != 0:
             raise RuntimeError("model driver failed: " + p.stderr[-2000:])
